@@ -17,6 +17,10 @@
 #include "c10_eval.h"
 #include "c10_gen.h"
 #include <symengine/parser.h>
+#include <symengine/polys/uintpoly.h>
+#include <symengine/polys/uratpoly.h>
+#include <symengine/polys/uexprpoly.h>
+#include <symengine/polys/msymenginepoly.h>
 
 using namespace SymEngine;
 using namespace dev;
@@ -88,6 +92,8 @@ static int numeric_point(const Basic &e, const std::string &x, const Basic &R, c
     long double diff = (long double)cabsT(wantL - gotL);
     if (!(diff <= 1e-9L * scale + 50 * err)) {
         std::string key = std::string("value-") + kind;
+        if (has_kind(e, is_clash_subs))
+            key = "derivative-rename-clash";
         if (has_kind(e, is_acosh)) {
             // known defect: d/dx acosh(x) is coded as 1/sqrt(x^2-1); does the mismatch disappear under that rule?
             try {
@@ -128,7 +134,8 @@ static void value_oracle(const B &e, const std::string &x, const B &R, const std
             Q want, got;
             eval_pair<Q>(*e, x, *R, env, want, got);
             if (!(want == got)) {
-                oracle = "FAIL:value-exact:derivative of recipe = " + qstr(want) + " library result = " + qstr(got)
+                oracle = std::string("FAIL:") + (has_kind(*e, is_clash_subs) ? "derivative-rename-clash" : "value-exact")
+                         + ":derivative of recipe = " + qstr(want) + " library result = " + qstr(got)
                          + " at ";
                 for (const auto &p : env)
                     oracle += p.first + "=" + qstr(p.second) + " ";
@@ -186,10 +193,219 @@ static void value_oracle(const B &e, const std::string &x, const B &R, const std
         stat("value_not_checked");
 }
 
+
+// ------------------------------------------------------------------ polynomial classes and Piecewise
+//   upoly <int|rat|expr> <var> <x> c0 c1 ... cn     dense coefficients of a UIntPoly / URatPoly / UExprPoly in <var>
+//   mpoly <x> i1 j1 c1 i2 j2 c2 ...                  MIntPoly over (x, y): terms c * x^i * y^j
+//   pw <cache> <x> e1 c1 e2 c2 ...                   Piecewise((e1, c1), (e2, c2), ...)
+// output: dense coefficient list / sorted "i,j:c" list / dump;  oracle: own termwise derivative
+static std::string dense_str(const std::map<unsigned, rational_class> &d)
+{
+    if (d.empty())
+        return "0";
+    unsigned deg = d.rbegin()->first;
+    std::string o;
+    for (unsigned i = 0; i <= deg; i++) {
+        auto it = d.find(i);
+        if (i)
+            o += " ";
+        o += it == d.end() ? std::string("0") : vsexp::rat_str(it->second);
+    }
+    return o;
+}
+
+static std::string run_upoly(const std::vector<std::string> &w, std::string &oracle)
+{
+    if (w.size() < 5)
+        throw std::runtime_error("bad op");
+    const std::string &kind = w[1];
+    RCP<const Symbol> var = symbol(w[2]), x = symbol(w[3]);
+    std::map<unsigned, rational_class> coef, want, got;
+    for (size_t i = 4; i < w.size(); i++) {
+        rational_class c = vsexp::parse_rat(w[i]);
+        if (c != 0)
+            coef[(unsigned)(i - 4)] = c;
+    }
+    if (w[2] == w[3])
+        for (const auto &p : coef)
+            if (p.first > 0)
+                want[p.first - 1] = p.second * rational_class(integer_class((unsigned long)p.first));
+    B r;
+    if (kind == "int") {
+        map_uint_mpz d;
+        for (const auto &p : coef)
+            d[p.first] = get_num(p.second);
+        RCP<const UIntPoly> P = UIntPoly::from_dict(var, std::move(d));
+        r = P->diff(x);
+        if (!is_a<UIntPoly>(*r)) {
+            oracle = "FAIL:poly-type:derivative of a UIntPoly is " + r->__str__();
+            return r->__str__();
+        }
+        for (auto it = down_cast<const UIntPoly &>(*r).begin(); it != down_cast<const UIntPoly &>(*r).end(); ++it)
+            got[it->first] = rational_class(it->second);
+    } else if (kind == "rat") {
+        map_uint_mpq d;
+        for (const auto &p : coef)
+            d[p.first] = p.second;
+        RCP<const URatPoly> P = URatPoly::from_dict(var, std::move(d));
+        r = P->diff(x);
+        if (!is_a<URatPoly>(*r)) {
+            oracle = "FAIL:poly-type:derivative of a URatPoly is " + r->__str__();
+            return r->__str__();
+        }
+        for (auto it = down_cast<const URatPoly &>(*r).begin(); it != down_cast<const URatPoly &>(*r).end(); ++it)
+            got[it->first] = it->second;
+    } else {
+        map_int_Expr d;
+        for (const auto &p : coef)
+            d[(int)p.first] = Expression(Rational::from_mpq(p.second));
+        RCP<const UExprPoly> P = UExprPoly::from_dict(var, std::move(d));
+        r = P->diff(x);
+        if (!is_a<UExprPoly>(*r)) {
+            oracle = "FAIL:poly-type:derivative of a UExprPoly is " + r->__str__();
+            return r->__str__();
+        }
+        for (auto it = down_cast<const UExprPoly &>(*r).begin(); it != down_cast<const UExprPoly &>(*r).end(); ++it) {
+            B c = it->second.get_basic();
+            if (!is_a_Number(*c) || !(is_a<Integer>(*c) || is_a<Rational>(*c)))
+                throw std::runtime_error("non-rational coefficient");
+            rational_class q = is_a<Integer>(*c) ? rational_class(down_cast<const Integer &>(*c).as_integer_class())
+                                                 : down_cast<const Rational &>(*c).as_rational_class();
+            if (q != 0)
+                got[(unsigned)it->first] = q;
+        }
+    }
+    std::string out = dense_str(got);
+    if (got != want)
+        oracle = "FAIL:poly-derivative:expected " + dense_str(want) + " got " + out;
+    stat("poly_cases");
+    return out;
+}
+
+static std::string run_mpoly(const std::vector<std::string> &w, std::string &oracle)
+{
+    if (w.size() < 2 || (w.size() - 2) % 3 != 0)
+        throw std::runtime_error("bad op");
+    RCP<const Symbol> x = symbol(w[1]);
+    RCP<const Basic> sx = symbol("x"), sy = symbol("y");
+    typedef std::map<std::pair<unsigned, unsigned>, integer_class> T;
+    T terms, want, got;
+    umap_uvec_mpz d;
+    for (size_t i = 2; i + 2 < w.size(); i += 3) {
+        unsigned a = (unsigned)atoi(w[i].c_str()), b = (unsigned)atoi(w[i + 1].c_str());
+        integer_class c(w[i + 2].c_str());
+        terms[std::make_pair(a, b)] += c;
+    }
+    for (const auto &t : terms)
+        if (t.second != 0)
+            d[vec_uint{t.first.first, t.first.second}] = t.second;
+    RCP<const MIntPoly> P = MIntPoly::from_dict({sx, sy}, std::move(d));
+    for (const auto &t : terms) {
+        if (t.second == 0)
+            continue;
+        if (w[1] == "x" && t.first.first > 0)
+            want[std::make_pair(t.first.first - 1, t.first.second)] += t.second * integer_class((unsigned long)t.first.first);
+        if (w[1] == "y" && t.first.second > 0)
+            want[std::make_pair(t.first.first, t.first.second - 1)] += t.second * integer_class((unsigned long)t.first.second);
+    }
+    B r = P->diff(x);
+    if (!is_a<MIntPoly>(*r)) {
+        oracle = "FAIL:poly-type:derivative of an MIntPoly is " + r->__str__();
+        return r->__str__();
+    }
+    const MIntPoly &R = down_cast<const MIntPoly &>(*r);
+    // positions of x and y in the (hash ordered) variable set
+    int ix = -1, iy = -1, k = 0;
+    for (const auto &v : R.get_vars()) {
+        if (eq(*v, *sx))
+            ix = k;
+        if (eq(*v, *sy))
+            iy = k;
+        k++;
+    }
+    for (const auto &t : R.get_poly().dict_) {
+        unsigned a = ix >= 0 ? t.first[ix] : 0, b = iy >= 0 ? t.first[iy] : 0;
+        got[std::make_pair(a, b)] += t.second;
+    }
+    T w2;
+    for (const auto &t : want)
+        if (t.second != 0)
+            w2[t.first] = t.second;
+    std::string out;
+    for (const auto &t : got) {
+        if (!out.empty())
+            out += " ";
+        out += std::to_string(t.first.first) + "," + std::to_string(t.first.second) + ":" + vsexp::int_str(t.second);
+    }
+    if (out.empty())
+        out = "0";
+    if (got != w2)
+        oracle = "FAIL:poly-derivative:MIntPoly derivative is " + out;
+    stat("poly_cases");
+    return out;
+}
+
+static void value_oracle(const B &e, const std::string &x, const B &R, const std::string &opline, std::string &oracle);
+
+static std::string run_pw(const std::string &line, std::string &oracle)
+{
+    std::vector<std::string> w = split(line, ' ');
+    bool cache = w[1] == "1";
+    RCP<const Symbol> x = symbol(w[2]);
+    std::vector<vsexp::Node> nodes = vsexp::parse_all(line.substr(w[0].size() + w[1].size() + w[2].size() + 3));
+    if (nodes.empty() || nodes.size() % 2)
+        throw std::runtime_error("bad op");
+    PiecewiseVec v;
+    for (size_t i = 0; i + 1 < nodes.size(); i += 2) {
+        B c = vsexp::build(nodes[i + 1]);
+        if (!is_a_Boolean(*c))
+            throw std::runtime_error("condition expected");
+        v.push_back(std::make_pair(vsexp::build(nodes[i]), rcp_static_cast<const Boolean>(c)));
+    }
+    PiecewiseVec v0 = v;
+    B e = piecewise(std::move(v));
+    B r1 = diff(e, x, true), r0 = diff(e, x, false);
+    B R = cache ? r1 : r0;
+    std::string out = vsexp::dump(R);
+    if (!eq(*r1, *r0)) {
+        oracle = "FAIL:cache:cached " + vsexp::dump(r1) + " uncached " + vsexp::dump(r0);
+        return out;
+    }
+    stat("piecewise_cases");
+    if (!is_a<Piecewise>(*e))
+        return out;
+    if (!is_a<Piecewise>(*R)) {
+        oracle = "FAIL:piecewise-shape:derivative of a Piecewise is " + out;
+        return out;
+    }
+    const PiecewiseVec &pe = down_cast<const Piecewise &>(*e).get_vec();
+    const PiecewiseVec &pr = down_cast<const Piecewise &>(*R).get_vec();
+    if (pe.size() != pr.size()) {
+        oracle = "FAIL:piecewise-shape:number of pieces changed: " + out;
+        return out;
+    }
+    for (size_t i = 0; i < pe.size(); i++) {
+        if (!eq(*pe[i].second, *pr[i].second)) {
+            oracle = "FAIL:piecewise-shape:condition changed: " + out;
+            return out;
+        }
+        value_oracle(pe[i].first, w[2], pr[i].first, line + "#" + std::to_string(i), oracle);
+        if (oracle != "ok")
+            return out;
+    }
+    return out;
+}
+
 // ------------------------------------------------------------------ run
 std::string hx_run(const std::string &line, std::string &oracle)
 {
     std::vector<std::string> w = split(line, ' ');
+    if (!w.empty() && w[0] == "upoly")
+        return run_upoly(w, oracle);
+    if (!w.empty() && w[0] == "mpoly")
+        return run_mpoly(w, oracle);
+    if (w.size() >= 5 && w[0] == "pw")
+        return run_pw(line, oracle);
     if (w.size() < 4 || w[0] != "diff")
         throw std::runtime_error("bad op");
     bool cache = w[1] == "1";
@@ -198,8 +414,24 @@ std::string hx_run(const std::string &line, std::string &oracle)
     B e = vsexp::parse(rest);
     RCP<const Symbol> x = symbol(xname);
 
-    B r1 = diff(e, x, true);
-    B r0 = diff(e, x, false);
+    B r1, r0;
+    try {
+        r1 = diff(e, x, true);
+        r0 = diff(e, x, false);
+    } catch (const SymEngine::VerifAssertError &ex) {
+        std::string what = ex.what();
+        if (what.find("not is_a<Add>(*self)") != std::string::npos) {
+            // DiffVisitor::bvisit(const Add &) hands an Add to Add::as_coef_term (docs/C10.md, D-C10-3)
+            oracle = "FAIL:diff-add-nested:" + what;
+            return "E:Assert";
+        }
+        if (what.find("is_canonical(") != std::string::npos) {
+            // a canonical-form check inside add/mul/pow/Derivative constructors: left to C03
+            stat("assert_is_canonical_in_constructor_ignored");
+            return "E:Assert";
+        }
+        throw;
+    }
     B R = cache ? r1 : r0;
     std::string out = vsexp::dump(R);
     if (!eq(*r1, *r0)) {
@@ -329,6 +561,53 @@ void hx_gen(Rng &rng, const std::string &tier)
                 if (vsexp::dump(e2).size() < 900)
                     emit_diff(g, e2, g.r.coin(3, 4) ? "x" : "y", "binder-3rd");
             }
+        } catch (const std::exception &) {
+            stat("gen_exception");
+        }
+    }
+    // polynomial classes
+    for (int i = 0; i < 40 * scale; i++) {
+        static const char *kinds[] = {"int", "rat", "expr"};
+        std::string kind = kinds[g.r.below(3)];
+        std::string var = g.r.coin(3, 4) ? "x" : "y";
+        std::string xx = g.r.coin(4, 5) ? var : (var == "x" ? "y" : "x");
+        int deg = (int)g.r.below(7);
+        std::string op = "upoly " + kind + " " + var + " " + xx;
+        for (int k = 0; k <= deg; k++) {
+            long n = g.r.coin(1, 4) ? 0 : g.r.range(-9, 9);
+            if (kind == "rat" && n != 0 && g.r.coin()) {
+                long dd = g.r.range(2, 7);
+                rational_class q = rational_class(integer_class(n)) / rational_class(integer_class(dd));
+                op += " " + vsexp::rat_str(q);
+            } else
+                op += " " + std::to_string(n);
+        }
+        emit(op, "poly-univariate");
+    }
+    for (int i = 0; i < 25 * scale; i++) {
+        static const char *xs[] = {"x", "x", "y", "z"};
+        std::string op = std::string("mpoly ") + xs[g.r.below(4)];
+        int n = 1 + (int)g.r.below(5);
+        for (int k = 0; k < n; k++)
+            op += " " + std::to_string(g.r.below(4)) + " " + std::to_string(g.r.below(4)) + " " + std::to_string(g.r.range(-9, 9));
+        emit(op, "poly-multivariate");
+    }
+    // Piecewise
+    for (int i = 0; i < 30 * scale; i++) {
+        try {
+            int n = 2 + (int)g.r.below(2);
+            std::string op = std::string("pw ") + (g.r.coin() ? "1" : "0") + " " + (g.r.coin(4, 5) ? "x" : "y");
+            bool okk = true;
+            for (int k = 0; k < n; k++) {
+                B piece = gexpr(g, 2, K_ELEM);
+                B cond = k + 1 == n ? B(boolTrue) : B(Lt(symbol("x"), integer(g.r.range(-3, 3) + 4 * k)));
+                std::string d1 = vsexp::dump(piece), d2 = vsexp::dump(cond);
+                if (!eq(*vsexp::parse(d1), *piece) || !eq(*vsexp::parse(d2), *cond))
+                    okk = false;
+                op += " " + d1 + " " + d2;
+            }
+            if (okk && op.size() < 1500)
+                emit(op, "piecewise");
         } catch (const std::exception &) {
             stat("gen_exception");
         }
